@@ -19,6 +19,8 @@ THEOREMS = [
     "Yaw.C17.bins_slice", "Yaw.C17.bins_int_eq_slice", "Yaw.C17.bins_int_rejects", "Yaw.C17.patches_slice",
     "Yaw.C17.slice_commutes_sum", "Yaw.C17.patch_slice_sum", "Yaw.C17.iter_bins",
     "Yaw.C17.bins_sel", "Yaw.C17.bins_sel_empty", "Yaw.C17.sliceSel_step_one",
+    "Yaw.C17Ctor.counts_ctor_spec", "Yaw.C17Ctor.sumweights_ctor_spec", "Yaw.C17Ctor.sampled_ctor_spec",
+    "Yaw.C17Ctor.normalised_ctor_spec", "Yaw.C17Ctor.corrfunc_ctor_spec",
 ]
 RULE = ("random containers (B 1..5, N 1..6, auto/cross, members dd + random subset of dr/rd/rr) x operation drawn "
         "from {mul by scalar, add (compatible / other edges / other closed side / other patch number), bins[int], "
@@ -96,9 +98,9 @@ def run(prop, tier, seed, replay):
     from yaw.binning import Binning
     from yaw.correlation.corrfunc import CorrFunc
 
-    ck = Check(prop, tier, seed, kernels=["k_jackknife", "k_weights", "k_normalise", "k_estimators", "k_algebra"],
+    ck = Check(prop, tier, seed, kernels=["k_jackknife", "k_weights", "k_normalise", "k_estimators", "k_algebra", "k_ctors"],
                theorems=THEOREMS + ["Yaw.C17.eq_fields", "Yaw.C17.class_methods", "Yaw.C17.algebra_flags", "Yaw.C17.glue_pinned"],
-               lean_modules=["YawVerif.Props.C17"], rule=RULE,
+               lean_modules=["YawVerif.Props.C17", "YawVerif.Props.C17Ctor"], rule=RULE,
                assumptions=["numpy basic/advanced indexing and broadcasting as documented"])
     ck.translate()
     ck.lean_check()
@@ -440,6 +442,66 @@ def run(prop, tier, seed, replay):
                     and np.array_equal(r.binning.edges, exp_edges)):
                 ck.add_violation(f"CorrData.bins[{item}] selects the wrong sub-arrays",
                                  {"class": "CorrData", "op": "bins", "B": B, "index": str(item)})
+    # ---- constructors: arrays of every shape up to 4 dimensions (sizes drawn from {num_bins, num_bins +- 1, N, 1}) -----
+    #      (a) accept / reject vs the generated kernels, (b) vs the documented shapes
+    from yaw.binning import Binning
+    from yaw.correlation.corrdata import CorrData
+    from yaw.correlation.paircounts import NormalisedCounts, PatchedCounts, PatchedSumWeights
+    creq, cexp = [], []
+    nshape = 60 if tier == "quick" else 400
+    for i in range(nshape):
+        B = rng.choice([1, 2, 3])
+        N = rng.choice([1, 2, 4])
+        binning = Binning(np.linspace(0.1, 0.1 * (B + 1), B + 1), closed="right")
+        pool = [B, B, B + 1, max(1, B - 1), N, N, 1]
+
+        def rshape(force=None):
+            if force is not None and rng.random() < 0.45:
+                return list(force)
+            return [rng.choice(pool) for _ in range(rng.choice([0, 1, 2, 2, 3, 3, 4]))]
+        kind = ["counts", "sumw", "sampled", "norm"][i % 4]
+        if kind == "counts":
+            s = rshape([B, N, N])
+            impl = attempt(lambda: PatchedCounts(binning, np.zeros(s), auto=False))[1]
+            spec_ok = len(s) == 3 and s[0] == B and s[1] == s[2]
+            creq.append(f"c{i} counts {B} {len(s)} {' '.join(map(str, s))}")
+            desc = {"class": "PatchedCounts", "num_bins": B, "shape": s}
+        elif kind == "sumw":
+            s1 = rshape([B, N])
+            s2 = list(s1) if rng.random() < 0.7 else rshape([B, N])
+            impl = attempt(lambda: PatchedSumWeights(binning, np.zeros(s1), np.zeros(s2), auto=False))[1]
+            spec_ok = len(s1) == 2 and s1 == s2 and s1[0] == B
+            creq.append(f"c{i} sumw {B} {len(s1)} {' '.join(map(str, s1))} {len(s2)} {' '.join(map(str, s2))}")
+            desc = {"class": "PatchedSumWeights", "num_bins": B, "shape1": s1, "shape2": s2}
+        elif kind == "sampled":
+            d = rshape([B])
+            s = rshape([N + 1, B])
+            impl = attempt(lambda: CorrData(binning, np.zeros(d), np.zeros(s)))[1]
+            spec_ok = d == [B] and len(s) == 2 and s[1] == B
+            creq.append(f"c{i} sampled {B} {len(d)} {' '.join(map(str, d))} {len(s)} {' '.join(map(str, s))}")
+            desc = {"class": "CorrData", "num_bins": B, "data_shape": d, "samples_shape": s}
+        else:
+            cB, cN = B, N
+            wB = rng.choice([B, B, B + 1])
+            wN = rng.choice([N, N, N + 1])
+            b2 = Binning(np.linspace(0.1, 0.1 * (wB + 1), wB + 1), closed="right")
+            impl = attempt(lambda: NormalisedCounts(PatchedCounts(binning, np.zeros((cB, cN, cN)), auto=False),
+                                                    PatchedSumWeights(b2, np.zeros((wB, wN)), np.zeros((wB, wN)), auto=False)))[1]
+            spec_ok = cB == wB and cN == wN
+            creq.append(f"c{i} norm {cN} {cB} {wN} {wB}")
+            desc = {"class": "NormalisedCounts", "counts": [cB, cN], "sum_weights": [wB, wN]}
+        ck.count(f"ctor:{kind}:{'raise' if impl else 'ok'}")
+        ck.case(None, ("ctor", kind, str(desc)))
+        cexp.append((impl, desc))
+        if bool(impl) == spec_ok:
+            ck.add_violation(f"{desc['class']} constructor {'rejects' if impl else 'accepts'} arrays of shape "
+                             f"{ {k: v for k, v in desc.items() if k != 'class'} } "
+                             f"({'valid' if spec_ok else 'not the documented shape'}); raised: {impl}", desc)
+    cans = ck.driver("GenCtors", creq)
+    if cans is not None:
+        for (impl, desc), a in zip(cexp, cans):
+            if ("raise" if impl else "ok") != a:
+                ck.add_tie_break("constructor accept/reject vs generated kernel", {"case": desc, "impl": impl, "model": a})
     return ck.finish()
 
 
